@@ -1,5 +1,481 @@
-import Bardolph.Model.ExprParse
-/-! # C02 — expressions follow the documented precedence, associativity and arithmetic
-(theorems: see Props/C02Climb.lean and the agent branches) -/
+import Bardolph.Model.Gen
+import Bardolph.Model.Sem
+import Bardolph.Proofs.VmSteps
+/-!
+# C02 — expressions: postfix code computes the source-level value; arithmetic of the built-ins
+
+Model pieces: `Gen.genExpr` (the postfix code `expr_parser.py` emits for an expression tree),
+`Vm` (`PUSH`/`PUSHQ`/`OP`/`POP`, `binOp`, `doOp`), `Sem.evalExpr` (the value the source denotes)
+and the built-ins over exact rationals (`Vm.callBuiltin`).  That the parser builds the tree the
+documented precedence prescribes is checked by the harness on the real parser (the model's
+generator takes the tree as input); what is proved here is that, for a tree of ANY depth, the
+code computes the tree's value, in every value position, and that the built-ins have their
+documented ranges.
+-/
 namespace Bardolph
+open Vm VmSteps Sem
+
+/-! ## 1. postfix evaluation -/
+
+/-- the value of `x op y` when the source-level evaluation succeeds (the success case of the
+`bin` arm of `Sem.evalExpr`): `and`/`or` by truth value, everything else by `Vm.binOp`; `^` with
+a non-integer exponent is not a value (uninterpreted) -/
+def binVal (op : Operator) (x y : Val) : Option Val :=
+  match op with
+  | .and => some (.bool (x.truthy && y.truthy))
+  | .or => some (.bool (x.truthy || y.truthy))
+  | .pow =>
+    match y.asNum with
+    | some (q, _) => if q.den != 1 && x.asNum.isSome then none else Vm.binOp .pow x y
+    | none => none
+  | _ => Vm.binOp op x y
+
+theorem evalExpr_bin_ok (f : Nat) (op : Operator) (a b : Expr) (σ σ' : S) (r : Val)
+    (h : evalExpr (f + 1) (.bin op a b) σ = .ok (r, σ')) :
+    ∃ x σ1 y, evalExpr f a σ = .ok (x, σ1) ∧ evalExpr f b σ1 = .ok (y, σ') ∧
+      binVal op x y = some r := by
+  simp only [evalExpr] at h
+  split at h
+  · simp at h
+  · rename_i x σ1 ha
+    split at h
+    · simp at h
+    · rename_i y σ2 hb
+      refine ⟨x, σ1, y, ha, ?_⟩
+      cases op <;> simp [binVal] at h ⊢
+      all_goals (repeat' split at h) <;> simp_all
+
+/-- the VM's `OP op` on a stack `y :: x :: rest` computes the same value -/
+theorem doOp_binVal (s : State) (op : Operator) (x y r : Val) (rest : List Val)
+    (hev : s.eval = y :: x :: rest) (h : binVal op x y = some r) :
+    s.doOp op = { s with eval := r :: rest } := by
+  cases op
+  case pow =>
+    simp only [binVal, binOp] at h
+    cases hy : y.asNum with
+    | none => simp [hy] at h
+    | some p =>
+      obtain ⟨q, fl⟩ := p
+      cases hx : x.asNum with
+      | none => simp [hy, hx] at h; simp [State.doOp, hev, binOp, hy, hx, h]
+      | some p' => simp [hy, hx] at h; simp [State.doOp, hev, binOp, hy, hx, h]
+  all_goals (simp [binVal, binOp] at h <;> simp [State.doOp, hev, binOp, h])
+
+theorem step_binop (img : Image) (s : State) (pc : Nat) (op : Operator) (x y r : Val)
+    (rest : List Val) (hs : s.status = .running) (hpc : s.pc = (pc : Int))
+    (hi : img.code[pc]? = some (.op op)) (hev : s.eval = y :: x :: rest)
+    (hv : binVal op x y = some r) :
+    step img s = { s with pc := (pc : Int) + 1, eval := r :: rest } := by
+  rw [step_op img s pc op _ hs hpc hi (doOp_binVal s op x y r rest hev hv) hs]
+  simp [hpc]
+
+/-- expressions without calls, whose literals are pushed by value (`PUSHQ`: numbers, booleans,
+unit modes) — `lit`, `var`, `reg`, `un`, `bin`, `paren` nodes nested to any depth -/
+inductive CallFree : Expr → Prop
+  | lit (v : Val) : Gen.pushLit v = .pushq v → CallFree (.lit v)
+  | var (n : String) : CallFree (.var n)
+  | reg (r : Reg) : CallFree (.reg r)
+  | un (minus : Bool) (e : Expr) : CallFree e → CallFree (.un minus e)
+  | bin (op : Operator) (a b : Expr) : CallFree a → CallFree b → CallFree (.bin op a b)
+  | paren (e : Expr) : CallFree e → CallFree (.paren e)
+
+/-- the source-level state and the VM state give names and registers the same meaning -/
+def SameEnv (σ : S) (s : State) : Prop := (∀ n, σ.lookup n = s.getVariable n) ∧ σ.vm.regs = s.regs
+
+/-- **postfix_eval.**  For a call-free expression `e` of any depth: if the source-level
+evaluation succeeds with value `x`, then from ANY running VM state `s` that gives names and
+registers the same meaning and has `genExpr e` at `pc`, exactly `(genExpr e).length` steps
+later the machine is the same state with `pc` past the code and `x` pushed — stack height +1,
+nothing below touched, no register, variable, frame, trace or device changed — and the
+source-level state is unchanged too. -/
+theorem C02_postfix_eval (img : Image) (e : Expr) (he : CallFree e) :
+    ∀ (fuel : Nat) (σ σ' : S) (x : Val) (s : State) (pc : Nat),
+      s.status = .running → s.pc = (pc : Int) → CodeAt img pc (Gen.genExpr e) →
+      SameEnv σ s → evalExpr fuel e σ = .ok (x, σ') →
+      run img (Gen.genExpr e).length s =
+        { s with pc := (pc : Int) + (Gen.genExpr e).length, eval := x :: s.eval } ∧ σ' = σ := by
+  induction he with
+  | lit v hv =>
+    intro fuel σ σ' x s pc hs hpc hc henv h
+    cases fuel with
+    | zero => simp [evalExpr] at h
+    | succ f =>
+      simp only [evalExpr, Except.ok.injEq, Prod.mk.injEq] at h
+      obtain ⟨rfl, rfl⟩ := h
+      simp only [Gen.genExpr, hv, List.length_cons, List.length_nil] at hc ⊢
+      rw [run_one _ _ hs, step_pushq img s pc _ hs hpc hc.head]
+      refine ⟨by simp, ?_⟩
+      first | rfl | trivial
+  | var n =>
+    intro fuel σ σ' x s pc hs hpc hc henv h
+    cases fuel with
+    | zero => simp [evalExpr] at h
+    | succ f =>
+      simp only [evalExpr] at h
+      split at h
+      · simp at h
+      · rename_i hne
+        simp only [Except.ok.injEq, Prod.mk.injEq] at h
+        obtain ⟨rfl, rfl⟩ := h
+        simp only [Gen.genExpr, List.length_cons, List.length_nil] at hc ⊢
+        rw [run_one _ _ hs, step_push img s pc (.var n) (σ.lookup n) hs hpc hc.head (by simp)
+          (by simp only [State.read]; exact (henv.1 n).symm) hne]
+        refine ⟨by simp, ?_⟩
+        first | rfl | trivial
+  | reg r =>
+    intro fuel σ σ' x s pc hs hpc hc henv h
+    cases fuel with
+    | zero => simp [evalExpr] at h
+    | succ f =>
+      simp only [evalExpr] at h
+      split at h
+      · simp at h
+      · rename_i hne
+        simp only [Except.ok.injEq, Prod.mk.injEq] at h
+        obtain ⟨rfl, rfl⟩ := h
+        simp only [Gen.genExpr, List.length_cons, List.length_nil] at hc ⊢
+        rw [run_one _ _ hs, step_push img s pc (.reg r) (σ.vm.regs r) hs hpc hc.head (by simp)
+          (by simp only [State.read]; rw [henv.2]) hne]
+        refine ⟨by simp, ?_⟩
+        first | rfl | trivial
+  | paren e _ ih =>
+    intro fuel σ σ' x s pc hs hpc hc henv h
+    cases fuel with
+    | zero => simp [evalExpr] at h
+    | succ f =>
+      simp only [evalExpr] at h
+      simp only [Gen.genExpr] at hc ⊢
+      exact ih f σ σ' x s pc hs hpc hc henv h
+  | un minus e _ ih =>
+    intro fuel σ σ' x s pc hs hpc hc henv h
+    cases fuel with
+    | zero => simp [evalExpr] at h
+    | succ f =>
+      simp only [evalExpr] at h
+      split at h
+      · rename_i v σ1 hev
+        simp only [Gen.genExpr] at hc ⊢
+        obtain ⟨hrun, rfl⟩ := ih f σ σ1 v s pc hs hpc hc.left henv hev
+        cases minus with
+        | false =>
+          simp only [Bool.false_eq_true, if_false, Except.ok.injEq, Prod.mk.injEq] at h
+          obtain ⟨rfl, rfl⟩ := h
+          simpa using hrun
+        | true =>
+          simp only [if_true] at h hc ⊢
+          split at h
+          · rename_i r hr
+            simp only [Except.ok.injEq, Prod.mk.injEq] at h
+            obtain ⟨rfl, rfl⟩ := h
+            refine ⟨?_, rfl⟩
+            have hc2 := hc.right
+            rw [List.length_append, run_add, hrun]
+            simp only [List.length_cons, List.length_nil]
+            rw [run_succ _ _ _ (by exact hs),
+              step_pushq img _ (pc + (Gen.genExpr e).length) _ (by exact hs) (by simp) hc2.head]
+            rw [run_one _ _ (by exact hs),
+              step_binop img _ (pc + (Gen.genExpr e).length + 1) .mul v (.int (-1)) _ s.eval
+                (by exact hs) (by simp) hc2.tail.head (by rfl) (by simpa [binVal] using hr)]
+            apply State.ext' <;> simp
+            omega
+          · simp at h
+      · simp at h
+  | bin op a b _ _ iha ihb =>
+    intro fuel σ σ' r s pc hs hpc hc henv h
+    cases fuel with
+    | zero => simp [evalExpr] at h
+    | succ f =>
+      obtain ⟨x, σ1, y, ha, hb, hv⟩ := evalExpr_bin_ok f op a b σ σ' r h
+      simp only [Gen.genExpr] at hc ⊢
+      obtain ⟨hrunA, rfl⟩ := iha f σ σ1 x s pc hs hpc hc.left.left henv ha
+      obtain ⟨hrunB, rfl⟩ := ihb f σ1 σ' y
+        { s with pc := (pc : Int) + (Gen.genExpr a).length, eval := x :: s.eval }
+        (pc + (Gen.genExpr a).length) hs (by simp) hc.left.right henv hb
+      refine ⟨?_, rfl⟩
+      have hop := hc.right
+      rw [List.length_append, List.length_append, run_add, run_add, hrunA, hrunB]
+      simp only [List.length_cons, List.length_nil]
+      rw [run_one _ _ (by exact hs),
+        step_binop img _ (pc + (Gen.genExpr a).length + (Gen.genExpr b).length) op x y r s.eval
+          (by exact hs) (by simp) (by simpa [List.length_append, Nat.add_assoc] using hop.head) (by rfl) hv]
+      apply State.ext' <;> simp
+      omega
+
+/-- **same_value_everywhere.**  Every value position compiles `{e}` to `⟦e⟧; POP d`
+(`Gen.genRv (.expr e) (.to d)`) — `d` a register (a setting, or `result` for an `if`/`while`
+condition, a `print` or an argument), a variable (assignment) or a loop variable (count,
+bounds).  Whatever `d` is, the value stored — by the VM's one store routine `State.put` — is
+the value `x` of `C02_postfix_eval`, and the evaluation stack is left as it was. -/
+theorem C02_same_value_everywhere (img : Image) (e : Expr) (he : CallFree e) (d : Dst)
+    (fuel : Nat) (σ σ' : S) (x : Val) (s : State) (pc : Nat)
+    (hs : s.status = .running) (hpc : s.pc = (pc : Int))
+    (hc : CodeAt img pc (Gen.genRv (.expr e) (.to d)))
+    (henv : SameEnv σ s) (h : evalExpr fuel e σ = .ok (x, σ')) :
+    let t := ({ s with pc := (pc : Int) + (Gen.genExpr e).length }).put d x
+    run img (Gen.genRv (.expr e) (.to d)).length s =
+      (if t.status = .running then { t with pc := t.pc + 1 } else t) ∧
+    (run img (Gen.genRv (.expr e) (.to d)).length s).eval = s.eval ∧ σ' = σ := by
+  intro t
+  simp only [Gen.genRv] at hc ⊢
+  obtain ⟨hrun, rfl⟩ := C02_postfix_eval img e he fuel σ σ' x s pc hs hpc hc.left henv h
+  have hstep : run img ((Gen.genExpr e) ++ [Instr.pop d]).length s =
+      (if t.status = .running then { t with pc := t.pc + 1 } else t) := by
+    rw [List.length_append, run_add, hrun]
+    simp only [List.length_cons, List.length_nil]
+    rw [run_one _ _ (by exact hs),
+      step_pop img _ (pc + (Gen.genExpr e).length) d x s.eval (by exact hs) (by simp)
+        hc.right.head (by rfl)]
+  refine ⟨hstep, ?_, rfl⟩
+  rw [hstep]
+  have : t.eval = s.eval := put_eval _ d x
+  split <;> simp [this]
+
+/-! ## 2, 4. truth, unary minus, built-ins over exact rationals -/
+
+theorem C02_floor_bracket (q : Rat) : (q.floor : Rat) ≤ q ∧ q < (q.floor : Rat) + 1 := by
+  have h1 := Rat.floor_le q
+  have h2 := Rat.lt_floor_add_one q
+  rw [Rat.intCast_add] at h2
+  exact ⟨h1, by simpa using h2⟩
+
+theorem C02_ceil_bracket (q : Rat) : q ≤ (q.ceil : Rat) ∧ (q.ceil : Rat) < q + 1 :=
+  ⟨Rat.le_ceil, Rat.ceil_lt⟩
+
+/-- `trunc` rounds toward zero: same sign, magnitude not larger, less than 1 away -/
+theorem C02_trunc_bracket (q : Rat) :
+    ((Conv.truncR q : Int) : Rat).abs ≤ q.abs ∧ (q - (Conv.truncR q : Int)).abs < 1 ∧
+    (0 ≤ q → 0 ≤ Conv.truncR q) ∧ (q ≤ 0 → Conv.truncR q ≤ 0) := by
+  have hf := C02_floor_bracket q
+  have hc := C02_ceil_bracket q
+  by_cases h : 0 ≤ q
+  · have h0 : (0 : Int) ≤ q.floor := Rat.le_floor_iff.2 (by simpa using h)
+    have h0' : (0 : Rat) ≤ (q.floor : Rat) := by simpa using Rat.intCast_le_intCast.2 h0
+    have ht : Conv.truncR q = q.floor := by simp [Conv.truncR, h]
+    rw [ht]
+    refine ⟨?_, ?_, fun _ => h0, fun h' => ?_⟩
+    · rw [Rat.abs_of_nonneg h0', Rat.abs_of_nonneg h]; exact hf.1
+    · rw [Rat.abs_of_nonneg (by grind)]; grind
+    · have : ((q.floor : Int) : Rat) ≤ ((0 : Int) : Rat) := by simp; grind
+      exact Rat.intCast_le_intCast.1 this
+  · have hq : q < 0 := by grind
+    have h0 : q.ceil ≤ (0 : Int) := Rat.ceil_le_iff.2 (by simp; grind)
+    have h0' : (q.ceil : Rat) ≤ 0 := by simpa using Rat.intCast_le_intCast.2 h0
+    have ht : Conv.truncR q = q.ceil := by simp [Conv.truncR, h]
+    rw [ht]
+    refine ⟨?_, ?_, fun h' => absurd h' h, fun _ => h0⟩
+    · rw [Rat.abs_of_nonpos h0', Rat.abs_of_nonpos (by grind)]; grind
+    · rw [Rat.abs_of_nonpos (by grind)]; grind
+
+/-- `round` (Python's, on floats): a nearest integer, and on a tie the even one -/
+theorem C02_round_nearest (q : Rat) :
+    (q - (Val.roundHalfEven q : Int)).abs ≤ 1 / 2 ∧
+    ((q - (Val.roundHalfEven q : Int)).abs = 1 / 2 → Val.roundHalfEven q % 2 = 0) := by
+  have hf := C02_floor_bracket q
+  unfold Val.roundHalfEven
+  simp only
+  have hh : (1 / 2 : Rat) + 1 / 2 = 1 := by grind
+  generalize (1 / 2 : Rat) = half at *
+  by_cases h1 : q - (q.floor : Rat) < half
+  · simp only [h1, if_true]
+    rw [Rat.abs_of_nonneg (by grind)]
+    exact ⟨by grind, fun h => by grind⟩
+  · simp only [h1, if_false]
+    by_cases h2 : q - (q.floor : Rat) > half
+    · simp only [h2, if_true]
+      rw [Rat.intCast_add, Rat.abs_of_nonpos (by simp; grind)]
+      simp
+      exact ⟨by grind, fun h => by grind⟩
+    · simp only [h2, if_false]
+      have he : q - (q.floor : Rat) = half := by grind
+      by_cases h3 : (q.floor % 2 == 0) = true
+      · simp only [h3, if_true]
+        rw [Rat.abs_of_nonneg (by grind)]
+        exact ⟨by grind, fun _ => by simpa using h3⟩
+      · simp only [h3, Bool.false_eq_true, if_false]
+        rw [Rat.intCast_add, Rat.abs_of_nonpos (by simp; grind)]
+        simp
+        refine ⟨by grind, fun _ => ?_⟩
+        have : ¬ q.floor % 2 = 0 := by simpa using h3
+        omega
+
+/-- `cycle θ = θ % 360` lies in `[0, 360)` and differs from `θ` by a whole number of turns -/
+theorem C02_cycle_range (q : Rat) :
+    0 ≤ Val.ratMod q 360 ∧ Val.ratMod q 360 < 360 ∧
+    ∃ k : Int, q - Val.ratMod q 360 = 360 * (k : Rat) := by
+  have hf := C02_floor_bracket (q / 360)
+  unfold Val.ratMod
+  refine ⟨by grind, by grind, (q / 360).floor, by grind⟩
+
+theorem C02_random_range (lo hi : Int) (k : Nat) (h : lo ≤ hi) :
+    lo ≤ stubDraw lo hi k ∧ stubDraw lo hi k ≤ hi := by
+  unfold stubDraw
+  have hm : 0 < hi - lo + 1 := by omega
+  have h1 := Int.emod_nonneg (7 * lo + 13 * hi + k) (Int.ne_of_gt hm)
+  have h2 := Int.emod_lt_of_pos (7 * lo + 13 * hi + k) hm
+  show lo ≤ lo + (7 * lo + 13 * hi + k) % (hi - lo + 1) ∧
+    lo + (7 * lo + 13 * hi + k) % (hi - lo + 1) ≤ hi
+  omega
+
+theorem C02_random_onto (lo hi n : Int) (h1 : lo ≤ n) (h2 : n ≤ hi) :
+    ∃ k : Nat, stubDraw lo hi k = n := by
+  have hm : 0 < hi - lo + 1 := by omega
+  refine ⟨(Int.emod ((n - lo) - (7 * lo + 13 * hi)) (hi - lo + 1)).toNat, ?_⟩
+  unfold stubDraw
+  have hnn := Int.emod_nonneg ((n - lo) - (7 * lo + 13 * hi)) (Int.ne_of_gt hm)
+  have hcast : ((Int.emod ((n - lo) - (7 * lo + 13 * hi)) (hi - lo + 1)).toNat : Int) =
+      ((n - lo) - (7 * lo + 13 * hi)) % (hi - lo + 1) := Int.toNat_of_nonneg hnn
+  rw [hcast]
+  show lo + (7 * lo + 13 * hi + ((n - lo) - (7 * lo + 13 * hi)) % (hi - lo + 1)) % (hi - lo + 1) = n
+  rw [Int.add_emod_emod]
+  have : 7 * lo + 13 * hi + ((n - lo) - (7 * lo + 13 * hi)) = n - lo := by omega
+  rw [this, Int.emod_eq_of_lt (by omega) (by omega)]
+  omega
+
+theorem C02_truthy_zero :
+    Val.truthy (.int 0) = false ∧ Val.truthy (.num 0) = false ∧ Val.truthy (.bool false) = false ∧
+    (∀ i : Int, i ≠ 0 → Val.truthy (.int i) = true) ∧
+    (∀ q : Rat, q ≠ 0 → Val.truthy (.num q) = true) := by
+  refine ⟨by simp [Val.truthy], by simp [Val.truthy], rfl, ?_, ?_⟩
+  · intro i hi; simp [Val.truthy, hi]
+  · intro q hq; simp [Val.truthy, hq]
+
+/-- multiplying by the integer −1 (what the code of a leading minus does) is arithmetic
+negation on every number -/
+theorem C02_mul_neg_one (v : Val) (h : v.asNum.isSome = true) :
+    Val.mul v (.int (-1)) = Val.neg v := by
+  cases v with
+  | int i =>
+    have : ((i : Rat) * -1).num = -i := by
+      have e : (-1 : Rat) = ((-1 : Int) : Rat) := by simp
+      rw [e, ← Rat.intCast_mul, Rat.num_intCast]; omega
+    simp [Val.mul, Val.neg, Val.asNum, Val.mkNum, this]
+  | num q =>
+    have : q * -1 = -q := by grind
+    simp [Val.mul, Val.neg, Val.asNum, Val.mkNum, this]
+  | bool b =>
+    cases b
+    · simp [Val.mul, Val.neg, Val.asNum, Val.mkNum]
+    · simp [Val.mul, Val.neg, Val.asNum, Val.mkNum]
+  | _ => simp [Val.asNum] at h
+
+theorem C02_builtin_floor (q : Rat) (k : Nat) : callBuiltin "floor" [.num q] k = .val (.int q.floor) := rfl
+theorem C02_builtin_ceil (q : Rat) (k : Nat) : callBuiltin "ceil" [.num q] k = .val (.int q.ceil) := rfl
+theorem C02_builtin_trunc (q : Rat) (k : Nat) :
+    callBuiltin "trunc" [.num q] k = .val (.int (Conv.truncR q)) := rfl
+theorem C02_builtin_round (q : Rat) (k : Nat) :
+    callBuiltin "round" [.num q] k = .val (.int (Val.roundHalfEven q)) := rfl
+theorem C02_builtin_cycle (q : Rat) (k : Nat) (h : ¬ (0 ≤ q ∧ q < 360)) :
+    callBuiltin "cycle" [.num q] k = .val (.num (Val.ratMod q 360)) := by
+  simp [callBuiltin, Val.asNum]
+  intro h0 h1; exact absurd ⟨h0, h1⟩ h
+theorem C02_builtin_random (lo hi : Int) (k : Nat) (h : lo ≤ hi) :
+    callBuiltin "random" [.int lo, .int hi] k = .val (.int (stubDraw lo hi k)) := by
+  simp [callBuiltin, Val.asInt, h]
+
+/-! ## 3. corollaries: destinations, unary operators, parentheses -/
+
+/-- stored in a register (a setting such as `hue {e}`, or `result` for a condition, `print`,
+an argument): the register holds `x`, every other register, the stack of frames, the variables
+and the evaluation stack are as before, and the machine runs on after the code -/
+theorem C02_value_in_register (img : Image) (e : Expr) (he : CallFree e) (r : Reg)
+    (fuel : Nat) (σ σ' : S) (x : Val) (s : State) (pc : Nat)
+    (hs : s.status = .running) (hpc : s.pc = (pc : Int))
+    (hc : CodeAt img pc (Gen.genRv (.expr e) (.to (.reg r))))
+    (henv : SameEnv σ s) (h : evalExpr fuel e σ = .ok (x, σ')) :
+    run img (Gen.genRv (.expr e) (.to (.reg r))).length s =
+      { s with pc := (pc : Int) + (Gen.genRv (.expr e) (.to (.reg r))).length,
+               regs := fun r' => if r' = r then x else s.regs r' } := by
+  have h1 := (C02_same_value_everywhere img e he (.reg r) fuel σ σ' x s pc hs hpc hc henv h).1
+  rw [h1]
+  simp only [State.put, State.setReg, hs, if_true, Gen.genRv, List.length_append,
+    List.length_cons, List.length_nil]
+  apply State.ext' <;> simp
+  omega
+
+/-- **unary_minus.**  A leading minus is compiled to `⟦e⟧; PUSHQ -1; OP MUL`; its value is
+`binOp .mul v (-1)` for the value `v` of the operand — on numbers the arithmetic negation
+(`C02_mul_neg_one`) — and by `C02_postfix_eval` that is what the code pushes. -/
+theorem C02_unary_minus (f : Nat) (e : Expr) (σ σ' : S) (x : Val)
+    (h : evalExpr (f + 1) (.un true e) σ = .ok (x, σ')) :
+    Gen.genExpr (.un true e) = Gen.genExpr e ++ [.pushq (.int (-1)), .op .mul] ∧
+    ∃ v, evalExpr f e σ = .ok (v, σ') ∧ Vm.binOp .mul v (.int (-1)) = some x ∧
+      (v.asNum.isSome = true → Val.neg v = some x) := by
+  refine ⟨by simp [Gen.genExpr], ?_⟩
+  simp only [evalExpr] at h
+  split at h
+  · rename_i v σ1 hev
+    simp only [if_true] at h
+    split at h
+    · rename_i r hr
+      simp only [Except.ok.injEq, Prod.mk.injEq] at h
+      obtain ⟨rfl, rfl⟩ := h
+      refine ⟨v, hev, hr, fun hn => ?_⟩
+      rw [← C02_mul_neg_one v hn]; exact hr
+    · simp at h
+  · simp at h
+
+/-- a unary plus changes nothing -/
+theorem C02_unary_plus (f : Nat) (e : Expr) (σ : S) :
+    Gen.genExpr (.un false e) = Gen.genExpr e ∧
+    ∀ x σ', evalExpr f e σ = .ok (x, σ') → evalExpr (f + 1) (.un false e) σ = .ok (x, σ') := by
+  refine ⟨by simp [Gen.genExpr], ?_⟩
+  intro x σ' h
+  simp [evalExpr, h]
+
+/-- parentheses only group: same code, same value -/
+theorem C02_paren (f : Nat) (e : Expr) (σ : S) :
+    Gen.genExpr (.paren e) = Gen.genExpr e ∧ evalExpr (f + 1) (.paren e) σ = evalExpr f e σ := by
+  simp [Gen.genExpr, evalExpr]
+
+/-- at top level (no frames) a source-level state built on the VM state agrees with it -/
+theorem SameEnv.toplevel (s : State) (h : s.stack = []) : SameEnv { vm := s } s := by
+  refine ⟨fun n => ?_, rfl⟩
+  simp only [S.lookup, State.getVariable, h, activation]
+  rfl
+
+
+/-! ## non-vacuity -/
+
+section Examples
+
+/-- `(1 + x) * -hue ^ 2 < 3 and true` as a tree -/
+def c02ExExpr : Expr :=
+  .bin .and
+    (.bin .lt
+      (.bin .mul (.paren (.bin .add (.lit (.int 1)) (.var "x")))
+        (.un true (.bin .pow (.reg .hue) (.lit (.int 2)))))
+      (.lit (.num 3)))
+    (.lit (.bool true))
+
+example : CallFree c02ExExpr := by
+  repeat' constructor
+
+def c02ExState : State := { regs := initRegs, globals := [("x", .int 4)], pc := 0 }
+def c02ExImg : Image := ⟨(([] : List Instr) ++ Gen.genExpr c02ExExpr ++ [Instr.stop]).toArray, []⟩
+
+example : CodeAt c02ExImg 0 (Gen.genExpr c02ExExpr) := CodeAt.intro [] (Gen.genExpr c02ExExpr) [Instr.stop] []
+example : SameEnv { vm := c02ExState } c02ExState := SameEnv.toplevel c02ExState rfl
+theorem c02ExEval : evalExpr 10 c02ExExpr { vm := c02ExState } = .ok (.bool true, { vm := c02ExState }) := by
+  simp [evalExpr, c02ExExpr, S.lookup, c02ExState, Dict.get, initRegs, binOp, Val.add, Val.mul, Val.pow,
+    Val.cmp, Val.asNum, Val.mkNum, Val.truthy]
+  decide +kernel
+
+/-- the theorem applied: the VM run of the generated code leaves exactly the value on the stack -/
+example : (run c02ExImg (Gen.genExpr c02ExExpr).length c02ExState).eval = [.bool true] ∧
+    (run c02ExImg (Gen.genExpr c02ExExpr).length c02ExState).pc = (Gen.genExpr c02ExExpr).length := by
+  have h := (C02_postfix_eval c02ExImg c02ExExpr (by repeat' constructor) 10 { vm := c02ExState }
+    { vm := c02ExState } (.bool true) c02ExState 0 rfl rfl
+    (CodeAt.intro [] (Gen.genExpr c02ExExpr) [Instr.stop] []) (SameEnv.toplevel c02ExState rfl) c02ExEval).1
+  rw [h]
+  exact ⟨rfl, by simp⟩
+
+example : Val.roundHalfEven (5 / 2) = 2 ∧ Val.roundHalfEven (7 / 2) = 4 ∧
+    Val.roundHalfEven (-5 / 2) = -2 := by decide +kernel
+example : Conv.truncR (-7 / 2) = -3 ∧ Conv.truncR (7 / 2) = 3 := by decide +kernel
+example : Val.ratMod 725 360 = 5 ∧ Val.ratMod (-90) 360 = 270 := by decide +kernel
+example : stubDraw 2 2 0 = 2 ∧ stubDraw 1 3 1 = 3 := by decide +kernel
+example : ∃ k, stubDraw 0 100 k = 100 := C02_random_onto 0 100 100 (by omega) (by omega)
+
+end Examples
+
 end Bardolph
